@@ -270,7 +270,8 @@ impl Ctx {
 			failure_persistence: None,
 			rng_algorithm: RngAlgorithm::ChaCha,
 			rng_seed: RngSeed::Fixed(seed),
-			max_shrink_iters: max_shrink,
+			// seeded-change runs only need the verdict, not a minimal case
+			max_shrink_iters: if std::env::var("PDBV_NO_SHRINK").is_ok() { 0 } else { max_shrink },
 			max_shrink_time: 0,
 			max_global_rejects: 1_000_000,
 			..Config::default()
